@@ -1,4 +1,164 @@
-import DDV.Gen.Lemmas.Tree
+/-
+  C16 — All four input syntaxes yield the same driver.
+
+  The DSL front end and the manifest front end (shared by JSON / YAML / TOML) are two separately
+  written lowerings from what the user wrote to the MIR; everything after the MIR is one function
+  (`transform_mir`). So the property reduces to: on definitions all syntaxes can express, the two
+  lowerings produce the same MIR (or the same rejection).
+-/
+import DDV.Gen.Pipeline
+
 namespace DDV.Props.C16
-theorem placeholder : True := trivial
+open DDV.Gen
+set_option linter.unusedVariables false
+set_option linter.unusedSimpArgs false
+
+/-- The fragment in which "the same definition" is expressible in every syntax (from the book). -/
+def CommonField (f : AField) : Prop :=
+  -- a single-bit address is only allowed for `bool` (the DSL rejects it otherwise in the front end,
+  -- the manifest lowers it to an empty range that a later pass rejects)
+  (f.base ≠ .bool → f.stop.isSome) ∧
+  (match f.conv with
+   | some (.ty p _) => stripWs p = p                       -- paths are written without whitespace
+   | some (.enum e _) => e.description.getD "" = f.description.getD ""   -- the DSL has no separate enum docs
+   | none => True)
+
+def CommonReset (r : Option ResetValue) : Prop :=
+  match r with
+  | some (.int n) => n < 2 ^ 64        -- manifest integers are u64, the DSL takes u128
+  | _ => True
+
+def CommonOverride (ov : AOverride) : Prop :=
+  ov.illegal = [] ∧ (ov.kind = "block" ∨ ov.kind = "register" ∨ ov.kind = "command") ∧ CommonReset ov.reset
+
+mutual
+def CommonObj : AObj → Prop
+  | .block _ _ _ os => CommonObjs os
+  | .register _ _ _ _ _ _ reset _ _ _ fields => CommonReset reset ∧ ∀ f ∈ fields, CommonField f
+  | .command _ basic _ bo bito si so rep abo aao fin fout =>
+    -- the basic form `command Foo = 5` denotes the extended form with nothing set
+    (basic = true → bo = none ∧ bito = none ∧ si = none ∧ so = none ∧ rep = none ∧ abo = none ∧
+      aao = none ∧ fin = none ∧ fout = none) ∧
+    (∀ f ∈ fin.getD [], CommonField f) ∧ (∀ f ∈ fout.getD [], CommonField f)
+  | .buffer _ _ _ => True
+  | .ref _ _ ov => CommonOverride ov
+def CommonObjs : List AObj → Prop
+  | [] => True
+  | o :: os => CommonObj o ∧ CommonObjs os
+end
+
+theorem mapM_congr_mem {α β : Type} (f g : α → M β) : ∀ (l : List α), (∀ x ∈ l, f x = g x) → l.mapM f = l.mapM g
+  | [], _ => rfl
+  | x :: xs, h => by
+    rw [List.mapM_cons, List.mapM_cons, h x (List.mem_cons_self ..),
+      mapM_congr_mem f g xs (fun y hy => h y (List.mem_cons_of_mem _ hy))]
+
+theorem field_agree (g : GlobalConfig) (f : AField) (h : CommonField f) : dslField g f = manField g f := by
+  unfold dslField manField
+  obtain ⟨h1, h2⟩ := h
+  cases hs : f.stop with
+  | none =>
+    have hb : f.base = .bool := by
+      cases hbb : f.base <;> simp_all
+    simp only [hb]
+    cases hc : f.conv with
+    | none => simp [hc]
+    | some cv =>
+      cases cv with
+      | ty p t => simp only [hc] at h2; simp [hc, h2]
+      | «enum» e t => simp only [hc] at h2; simp [hc, h2]
+  | some e =>
+    simp only
+    cases hc : f.conv with
+    | none => simp [hc]
+    | some cv =>
+      cases cv with
+      | ty p t => simp only [hc] at h2; simp [hc, h2]
+      | «enum» e t => simp only [hc] at h2; simp [hc, h2]
+
+theorem reset_agree (r : Option ResetValue) (h : CommonReset r) : dslReset r = manReset r := by
+  unfold dslReset manReset
+  cases r with
+  | none => rfl
+  | some rv =>
+    cases rv with
+    | int n =>
+      simp only [CommonReset] at h
+      have h1 : n < 2 ^ 128 := by omega
+      simp [h1, fitsU64, h]
+    | array a => rfl
+
+theorem override_agree (target : String) (ov : AOverride) (h : CommonOverride ov) :
+    dslOverride target ov = manOverride target ov := by
+  unfold dslOverride manOverride
+  obtain ⟨h1, h2, h3⟩ := h
+  simp only [h1, List.isEmpty_nil, Bool.not_true, Bool.false_eq_true, if_false]
+  rcases h2 with hk | hk | hk <;> simp [hk, reset_agree ov.reset h3]
+
+mutual
+theorem obj_agree (g : GlobalConfig) : ∀ (o : AObj), CommonObj o → dslObj g o = manObj g o
+  | .block c off rep os, h => by
+    unfold dslObj manObj
+    unfold CommonObj at h
+    rw [objs_agree g os h]
+  | .register c access bo bito address size reset rep abo aao fields, h => by
+    unfold dslObj manObj
+    unfold CommonObj at h
+    rw [mapM_congr_mem _ _ fields (fun f hf => field_agree g f (h.2 f hf)), reset_agree reset h.1]
+  | .command c basic address bo bito si so rep abo aao fin fout, h => by
+    unfold dslObj manObj
+    unfold CommonObj at h
+    rw [mapM_congr_mem _ _ (fin.getD []) (fun f hf => field_agree g f (h.2.1 f hf)),
+        mapM_congr_mem _ _ (fout.getD []) (fun f hf => field_agree g f (h.2.2 f hf))]
+    cases basic with
+    | false => simp
+    | true =>
+      obtain ⟨rfl, rfl, rfl, rfl, rfl, rfl, rfl, rfl, rfl⟩ := h.1 rfl
+      simp [checkU32, fitsU32, checkRepeat, bind, Except.bind, pure, Except.pure]
+      try (cases checkAddr address <;> rfl)
+  | .buffer c access address, h => by
+    unfold dslObj manObj; rfl
+  | .ref c target ov, h => by
+    unfold dslObj manObj
+    unfold CommonObj at h
+    rw [override_agree target ov h]
+theorem objs_agree (g : GlobalConfig) : ∀ (os : List AObj), CommonObjs os → dslObjs g os = manObjs g os
+  | [], _ => by unfold dslObjs manObjs; rfl
+  | o :: os, h => by
+    unfold dslObjs manObjs
+    unfold CommonObjs at h
+    rw [obj_agree g o h.1, objs_agree g os h.2]
+end
+
+/-- **C16.** On every definition of the common fragment the DSL lowering and the manifest lowering
+    agree — same MIR or same rejection, with every global-config default applied the same way. -/
+theorem front_ends_agree (d : ADef) (h : CommonObjs d.objects) : lowerDsl d = lowerManifest d := by
+  simp only [lowerDsl, lowerManifest, objs_agree _ d.objects h]
+
+/-- … hence the same driver and the same accept/reject decision from all four syntaxes. -/
+theorem same_driver (n : Names) (name : String) (d : ADef) (h : CommonObjs d.objects) (s : Syntax) :
+    generate n s name d = generate n .dsl name d := by
+  unfold generate lowerFront
+  cases s <;> simp only [front_ends_agree d h]
+
+/-- Every global default reaches the objects that do not set their own value, in both front ends:
+    (register access, shown on the manifest side, where it used to be ignored). -/
+theorem default_register_access_applied (g : GlobalConfig) (c : ACommon) (bo : Option DDV.Bits.ByteOrder)
+    (bito : Option DDV.Bits.BitOrder) (address : Int) (size : Nat) (o : Object)
+    (h : manObj g (.register c none bo bito address size none none none none []) = .ok o) :
+    ∃ r, o = .register r ∧ r.access = g.defaultRegisterAccess ∧ r.bitOrder = bito.getD g.defaultBitOrder := by
+  unfold manObj at h
+  simp only [bind, Except.bind, pure, Except.pure, List.mapM_nil, manReset, checkRepeat] at h
+  cases ha : checkAddr address with
+  | error e => rw [ha] at h; cases h
+  | ok a =>
+    rw [ha] at h
+    simp only at h
+    cases hs : checkU32 size with
+    | error e => rw [hs] at h; cases h
+    | ok sz =>
+      rw [hs] at h
+      simp only [Except.ok.injEq] at h
+      exact ⟨_, h.symm, rfl, rfl⟩
+
 end DDV.Props.C16
